@@ -7,7 +7,8 @@
 (* queue's guard -- must be the next step of the recording thread in        *)
 (* MultiChan, and what the API returned must be what the model computed.    *)
 (* Entry points covered: send, poll (alone or inside a `drive` task),       *)
-(* create_stream_for_new_events, dropping a stream, cancel_all_streams.     *)
+(* create_stream_for_new_events, dropping a stream, cancel_all_streams,     *)
+(* close (gracefully_end_all_streams + is_channel_open + running count).    *)
 (* Which listener's ring an operation touches is NOT logged: it follows     *)
 (* from the recording thread's position in the model (the entry of the      *)
 (* live-listener list it read / the stream it polls).                       *)
@@ -44,6 +45,7 @@ TCall == /\ Ev.k = "call" /\ ~IsNopCall
             ELSE IF Ev.x.op = "cancel_all" THEN CallCancel(P) /\ Same
             ELSE IF Ev.x.op = "create" THEN CallCreate(P) /\ Same
             ELSE IF Ev.x.op = "drop_stream" THEN CallDrop(P, Sid(Ev.x.s)) /\ Same
+            ELSE IF Ev.x.op = "close" THEN CallClose(P) /\ Same
             ELSE IF Ev.x.op = "drive"
             THEN /\ notified' = [notified EXCEPT ![P] = FALSE]          \* the task clears its notification before its first poll
                  /\ drv' = [drv EXCEPT ![P] = [on |-> TRUE, s |-> Sid(Ev.x.s), max |-> Ev.x.max, got |-> 0]]
@@ -68,6 +70,10 @@ TRetOther ==
     /\ Ev.fn # "poll"
     /\ IF Ev.fn \in {"send", "cancel_all", "drop_stream"}
        THEN pc[P] = "cret" /\ ChanRet(P) /\ Same
+       ELSE IF Ev.fn = "close"       \* what the real code answered is what the model computed
+       THEN /\ pc[P] = "cret" /\ reg[P].res = "closed"
+            /\ Ev.x.v = reg[P].left /\ Ev.x.running = reg[P].run /\ (Ev.x.open <=> reg[P].open)
+            /\ ChanRet(P) /\ Same
        ELSE IF Ev.fn = "create"
        THEN /\ pc[P] = "cret" /\ Len(Ev.x.ids) = 1 /\ Ev.x.ids[1] = reg[P].rv /\ Ev.x.s[1] = Len(hid)
             /\ ChanRet(P) /\ hid' = Append(hid, reg[P].rv) /\ UNCHANGED drv
@@ -113,16 +119,20 @@ SpinOp ==   \* a publication / release / lock attempt before its turn: nothing c
   \/ IsOp("try_publish_leaked_internal", "tail", "cas") /\ ~Ev.ok /\ pc[P] = "Z3" /\ pl.t # reg[P].ps
   \/ IsOp("try_publish_leaked_internal", "tail", "cas") /\ ~Ev.ok /\ pc[P] = "E5" /\ rt[Ring] # reg[P].slot
   \/ IsOp("release_leaked_internal", "head", "cas") /\ ~Ev.ok /\ pc[P] = "D4" /\ rh[Ring] # reg[P].slot
-  \/ Ev.k = "op" /\ Ev.o = "cas" /\ ~Ev.ok /\ pc[P] \in {"W2", "R2", "XW2", "P1"} /\ wlock
+  \/ Ev.k = "op" /\ Ev.o = "cas" /\ ~Ev.ok /\ pc[P] \in {"W2", "R2", "XW2", "P1", "FW2"} /\ wlock
   \/ Ev.k = "op" /\ Ev.o = "cas" /\ ~Ev.ok /\ pc[P] \in {"C3", "P5"} /\ vlock
   \/ Ev.k = "op" /\ Ev.o = "cas" /\ ~Ev.ok /\ pc[P] = "Y1" /\ slock
 
 SmOp ==
   \/ IsY("send_derived", "multi.used.read") /\ FanRead(P)
-  \/ IsY("wake_stream", "sm.wake.peek") /\ (WakePeek(P) \/ CancelWakePeek(P))
-  \/ Ev.fn = "wake_stream" /\ IsLockCas /\ (WakeLock(P) \/ CancelWakeLock(P))
-  \/ Ev.fn = "wake_stream" /\ IsUnlockSt /\ (WakeUnlock(P) \/ CancelWakeUnlock(P))
-  \/ IsY("keep_stream_running", "sm.keep.read") /\ KeepRead(P)
+  \/ IsY("wake_stream", "sm.wake.peek") /\ (WakePeek(P) \/ CancelWakePeek(P) \/ CloseWakePeek(P))
+  \/ Ev.fn = "wake_stream" /\ IsLockCas /\ (WakeLock(P) \/ CancelWakeLock(P) \/ CloseWakeLock(P))
+  \/ Ev.fn = "wake_stream" /\ IsUnlockSt /\ (WakeUnlock(P) \/ CancelWakeUnlock(P) \/ CloseWakeUnlock(P))
+  \/ IsY("keep_stream_running", "sm.keep.read") /\ (KeepRead(P) \/ CloseOpenRead(P))
+  \* close
+  \/ IsOp("available_elements_count", "tail", "ld") /\ pc[P] = "FL1" /\ WV(Ev.r) = rt[Ring] /\ CloseLenTail(P)
+  \/ IsOp("available_elements_count", "head", "ld") /\ pc[P] = "FL2" /\ WV(Ev.r) = rh[Ring] /\ CloseLenHead(P)
+  \/ IsOp("running_streams_count", "used_streams_count", "ld") /\ pc[P] \in {"Q1", "Q2", "O2"} /\ Ev.r = count /\ (CloseRunLoad(P) \/ CloseRunRet(P) \/ CloseRunning(P))
   \/ IsY("register_stream_waker", "sm.waker.peek") /\ WakerPeek(P)
   \/ Ev.fn = "register_stream_waker" /\ IsLockCas /\ WakerLock(P)
   \/ Ev.fn = "register_stream_waker" /\ IsUnlockSt /\ WakerUnlock(P)
@@ -153,7 +163,9 @@ TOp == Ev.k = "op" /\ (IF InOther(P) THEN Stutter ELSE ((RingOp \/ SmOp \/ OgreO
 TNote == \/ Ev.k = "unpark" /\ drv[P].on /\ notified[P]
             /\ notified' = [notified EXCEPT ![P] = FALSE] /\ UNCHANGED <<ring, sm, waker, wlock, keep, pc, reg, gh, og, drv, hid>>
          \/ Ev.k = "park" /\ drv[P].on /\ reg[P].res = "pending" /\ Stutter
-         \/ Ev.k \in {"wake", "suspended", "panic", "final", "slept"} /\ Stutter
+         \/ Ev.k = "slept" /\ pc[P] \in {"SL1", "SL2"} /\ CloseSlept(P) /\ Same
+         \/ Ev.k = "slept" /\ pc[P] \notin {"SL1", "SL2"} /\ Stutter
+         \/ Ev.k \in {"wake", "suspended", "panic", "final"} /\ Stutter
 
 \* structural verdicts along the real behaviour (the delivery verdicts are Trace_AbsMulti's, on the same recorded executions)
 BadOf == IF ~InvRingBounds THEN "InvRingBounds"
